@@ -11,7 +11,12 @@
    never released while another handle refers to it     -> seq_no_handle_to_released_block,
                                                            seq_no_fault (no FUaf / FDouble / FUnderflow)
    never modified in place while another handle refers  -> seq_no_fault (no FSharedWrite) with
-                                                           monitor_inplace_write_means_unshared
+                                                           monitor_inplace_write_means_unshared;
+                                                           seen from outside: seq_other_handles_keep_their_value,
+                                                           seq_step_refines_value_semantics (all four types),
+                                                           seq_history_refines_value_semantics (String, Variant,
+                                                           Xml::Variant: the Model computes what the Spec, in which
+                                                           every variable owns its value, computes)
    what the fault monitors mean                         -> monitor_access_means_not_released,
                                                            monitor_inplace_write_means_unshared,
                                                            monitor_release_means_first_release
@@ -34,10 +39,10 @@
    then: released <-> no handle left (exactly once, after the last handle, no leak)
                                                         -> conc_fair_schedules_release_after_last_handle
    Not covered by a theorem (validated by correspondence only): the values read through the
-   handles (copies are independent), compared with the value-semantics Spec on every case. *)
+   handles in the CONCURRENT machine (compared with the value-semantics Spec on every case). *)
 From Coq Require Import ZArith List Bool Arith.
 From Common Require Import ListAux.
-From Rc Require Import RcModel RcProofs RcSeq RcConc RcConcProofs.
+From Rc Require Import RcModel RcSpec RcProofs RcSeq RcRefine RcConc RcConcProofs.
 Import ListNotations.
 Local Open Scope Z_scope.
 
@@ -102,6 +107,21 @@ Theorem monitor_release_means_first_release : forall s b,
 Proof. exact monitor_free. Qed.
 Print Assumptions monitor_release_means_first_release.
 
+Theorem seq_step_refines_value_semantics : forall f ops o,
+  abs f (run f (ops ++ [o])) = svars (spec_step f (abs_state f (run f ops)) o).
+Proof. exact hist_step_refines. Qed.
+Print Assumptions seq_step_refines_value_semantics.
+
+Theorem seq_history_refines_value_semantics : forall f ops, is_ptr f = false ->
+  abs f (run f ops) = svars (spec_run f ops).
+Proof. exact run_refines. Qed.
+Print Assumptions seq_history_refines_value_semantics.
+
+Theorem seq_other_handles_keep_their_value : forall f ops o w, ~ In w (op_vars o) ->
+  nth w (abs f (run f (ops ++ [o]))) SDead = nth w (abs f (run f ops)) SDead.
+Proof. exact others_keep_their_value. Qed.
+Print Assumptions seq_other_handles_keep_their_value.
+
 (* ---- non-vacuity ---------------------------------------------------------------------------------- *)
 (* a String history with sharing, a clone on write, an in-place write and both releases *)
 Definition ex_hist : list op :=
@@ -112,6 +132,10 @@ Example ex_hist_blocks :
   /\ flt (run FStr ex_hist) = None.
 Proof. vm_compute. repeat split. Qed.
 Example ex_count : count_refs 1 (vars (run FStr (firstn 6 ex_hist))) = 2%nat /\ len (getb (run FStr (firstn 6 ex_hist)) 1) = 5.
+Proof. vm_compute. split; reflexivity. Qed.
+(* values: variable 0 keeps 3 while its copy, variable 1, is written twice (clone, then in place) *)
+Example ex_values : abs FStr (run FStr (firstn 5 ex_hist)) = [SVal 0 3; SVal 0 5; SVal 0 3; SDead; SDead; SDead]
+  /\ svars (spec_run FStr (firstn 5 ex_hist)) = [SVal 0 3; SVal 0 5; SVal 0 3; SDead; SDead; SDead].
 Proof. vm_compute. split; reflexivity. Qed.
 (* the three monitors do fire on states that deserve it *)
 Example ex_monitor_fires :
